@@ -449,6 +449,7 @@ pub fn run(tier: Tier) -> i32 {
         eprintln!("MACHINERY: vacuous exploration");
         return 2;
     }
+    super::cq::c19_into(&mut rep);
     rep.finish()
 }
 
